@@ -199,6 +199,9 @@ def run(ctx):
             ctx.sample({"direction": "code->spec", "events": [{k: v for k, v in e.items() if k != "post"} for e in traces[0]]})
     ctx.note("binding_selftest", {"corrupted_rejected": ctx.extra.get("binding_selftest_cases", 0),
                                   "dropped_rejected": ctx.extra.get("binding_selftest_cases", 0)})
+    v12_replayed, v12_recorded = _run_v12(ctx, rep)
+    replayed += v12_replayed
+    recorded += v12_recorded
     ctx.traces_validated += accepted
     ctx.note("traces_recorded", recorded)
     ctx.note("traces_accepted", accepted)
@@ -214,11 +217,120 @@ def run(ctx):
     ]
 
 
+V12_INV = ["CompletesOnce", "AlwaysCompletes", "ErrorIffSomeConnectionFailed", "KeyspaceEverywhereAfterSuccess"]
+V12_WITNESSES = ["Witness_EarlierConnectionFailedLastOk", "Witness_Success"]
+
+
+def _run_v12(ctx, rep):
+    """Second level: the fan-in of a protocol-v1/v2 pool over its connections (spec/SessionKeyspaceV12.tla, bound to a
+    real HostConnectionPool with 2-3 connections)."""
+    from harness.replay import keyspace_v12 as rv
+    replayed = clean = 0
+    for nh, nc in ([(1, 3)] if ctx.quick else [(1, 2), (1, 3)]):
+        k = {"NHosts": nh, "NConn": nc}
+        cfg = tlc.write_cfg(os.path.join(ctx.scratch, "ksv12_%d_%d.cfg" % (nh, nc)), constants=k, invariants=V12_INV, deadlock=False)
+        res, nodes, edges, init = tlc.state_graph("SessionKeyspaceV12", cfg, ctx.scratch, coverage=True, timeout=900)
+        ctx.add_tlc(res, "exhaustive v1/v2 pool fan-in NHosts=%d NConn=%d" % (nh, nc))
+        if res.violation:
+            rep.report("C20", "spec:v12:%s" % res.invariant, "TLC: %s violated on SessionKeyspaceV12.tla" % res.invariant,
+                       {"kind": "spec", "trace": [dict(s.get("act", {})) for _, s in res.trace()]})
+            return replayed, 0
+        cov = res.coverage()
+        if any(a not in cov or cov[a][1] == 0 for a in ("Start", "ConnFinish")):
+            raise tlc.MachineryError("actions never taken in SessionKeyspaceV12")
+        walks = cover_walks(edges, init, max_len=20)
+        for w in walks:
+            states = [nodes[i] for i in w]
+            d = rv.replay(states)
+            replayed += 1
+            conf = rv.config_of(states[0])
+            acts = [dict(s["act"]) for s in states[1:]]
+            ctx.nontrivial(("v12", nh, nc, repr(sorted((h, tuple(sorted(v.items()))) for h, v in conf.items())),
+                            tuple((a["h"], a["i"]) for a in acts)))
+            if d is None:
+                clean += 1
+                continue
+            rep.report("C20", d["signature"], "replay (v1/v2 pool with %d connections) diverges at step %d (%s) in configuration %s: %s"
+                       % (nc, d["step"], d["action"], conf, _fmt(d["diff"])),
+                       {"kind": "walk-v12", "configuration": {str(h): {str(i): o for i, o in v.items()} for h, v in conf.items()},
+                        "actions": acts, "divergence": {"step": d["step"], "action": d["action"], "signature": d["signature"],
+                                                        "diff": _fmt(d["diff"])}})
+        ctx.note("v12_graph_edges_NConn=%d" % nc, {"edges": len(set((a, b) for a, b, _ in edges)), "cover_walks": len(walks)})
+    if not ctx.quick:
+        cfg = tlc.write_cfg(os.path.join(ctx.scratch, "ksv12_22.cfg"), constants={"NHosts": 2, "NConn": 2}, invariants=V12_INV, deadlock=False)
+        res = tlc.check_model("SessionKeyspaceV12", cfg, ctx.scratch, timeout=900)
+        ctx.add_tlc(res, "exhaustive v1/v2 pool fan-in NHosts=2 NConn=2 (not replayed)")
+        if res.violation:
+            rep.report("C20", "spec:v12:%s" % res.invariant, "TLC: %s violated on SessionKeyspaceV12.tla" % res.invariant, {"kind": "spec"})
+            return replayed, 0
+
+    def one(w):
+        wcfg = tlc.write_cfg(os.path.join(ctx.scratch, "v12_" + w + ".cfg"), constants={"NHosts": 1, "NConn": 3}, invariants=[w], deadlock=False)
+        return w, tlc.check_model("SessionKeyspaceV12", wcfg, ctx.scratch, workers=2, timeout=900, heap="1g")
+    with ThreadPoolExecutor(max_workers=2) as ex:
+        for w, wres in ex.map(one, V12_WITNESSES):
+            if wres.invariant != w:
+                raise tlc.MachineryError("vacuity witness %s (SessionKeyspaceV12) not reachable" % w)
+    # code -> spec
+    nh, nc = 1, 3
+    traces = [rv.record(nh, nc, ctx.rng) for _ in range(60 if ctx.quick else 600)]
+    good = len(traces)
+    victims = [i for i, t in enumerate(traces) if len(t) >= 4][:4]
+    for i in victims:
+        bad = copy.deepcopy(traces[i])
+        bad[2]["post"]["completions"] += 1
+        traces.append(bad)
+    tcfg = tlc.write_cfg(os.path.join(ctx.scratch, "ksv12_trace.cfg"), init="TraceInit", next="TraceNext",
+                         constants={"NHosts": nh, "NConn": nc}, invariants=V12_INV, constraints=["Progress"], postcondition="Done", deadlock=False)
+    tres, prog = tlc.validate_traces("Trace_SessionKeyspaceV12", tcfg, traces, ctx.scratch, timeout=1200)
+    ctx.add_tlc(tres, "trace validation v1/v2 pool fan-in")
+    if tres.violation:
+        rep.report("C20", "trace-inv:v12:%s" % tres.invariant, "invariant %s violated in a recorded v1/v2 execution" % tres.invariant, {"kind": "trace-inv"})
+        return replayed, good
+    if not any(prog[i] >= 4 and prog[good + j] == 3 for j, i in enumerate(victims)):
+        raise tlc.MachineryError("binding self-test failed (v1/v2 fan-in): corrupted trace accepted or no victim")
+    accepted = 0
+    for i in range(good):
+        t = traces[i]
+        if prog[i] == len(t) + 1:
+            accepted += 1
+            continue
+        ev = t[prog[i] - 1]
+        rep.report("C20", "trace:v12ks:%s" % ev["e"], "recorded v1/v2 execution rejected by the specification at event %d: %s (outcomes %s)"
+                   % (prog[i], {a: b for a, b in ev.items() if a != "post"}, t[0]["outcome"]), {"kind": "trace", "events": t[:prog[i]]})
+    ctx.traces_validated += clean + accepted
+    ctx.note("v12_behaviours_replayed", replayed)
+    ctx.note("v12_behaviours_replayed_without_divergence", clean)
+    ctx.note("v12_traces", {"recorded": good, "accepted": accepted})
+    ctx.assumptions += ["v1/v2 fan-in: one pool with 2-3 connections is bound to the real HostConnectionPool (the simulated node's v2 "
+                        "system.peers rows are not decodable, so a v2 cluster has one host); two pools are model-checked only"]
+    return replayed, good
+
+
+def _replay_v12(obj):
+    from harness.replay import keyspace_v12 as rv
+    conf = {int(h): {int(i): o for i, o in v.items()} for h, v in obj["configuration"].items()}
+    print("configuration:", conf)
+    h = rv.KsV12Harness(conf)
+    for a in obj["actions"]:
+        print("->", a["name"], a["h"], a["i"])
+        try:
+            h.do(a)
+        except Exception as ex:
+            print("   cannot perform: %s: %s" % (type(ex).__name__, ex))
+            break
+        print("  ", h.project())
+    print("recorded divergence:", obj.get("divergence"))
+    h.teardown()
+
+
 def replay(ctx, obj):
     from harness.replay import keyspace as rk
     from checks import _driver
     if _driver.is_system_replay(obj):
         return _driver.replay_system(ctx, obj)
+    if obj.get("kind") == "walk-v12":
+        return _replay_v12(obj)
     if obj.get("kind") == "walk":
         conf = obj["configuration"]
         pstate = {int(p): v for p, v in conf["pstate"].items()}
